@@ -111,8 +111,8 @@ _ROOT = [None]
 def _short(p):
     if isinstance(p, (bytes, bytearray)):
         p = bytes(p)
-        if _ROOT[0] and _ROOT[0] in p:
-            p = p.replace(_ROOT[0], b"<RUN>")
+        if _ROOT[0] and _ROOT[0][1:] in p:
+            p = p.replace(_ROOT[0], b"<RUN>").replace(_ROOT[0][1:], b"<RUN>")
         if len(p) > 200:
             return p[:200].decode("latin-1") + f"...(+{len(p) - 200})"
         return p.decode("latin-1")
@@ -121,8 +121,8 @@ def _short(p):
     if isinstance(p, (list, tuple)):
         return [_short(x) for x in p]
     if isinstance(p, str):
-        if _ROOT[0] and _ROOT[0].decode() in p:
-            p = p.replace(_ROOT[0].decode(), "<RUN>")
+        if _ROOT[0] and _ROOT[0].decode()[1:] in p:
+            p = p.replace(_ROOT[0].decode(), "<RUN>").replace(_ROOT[0].decode()[1:], "<RUN>")
         if len(p) > 300:
             return p[:300] + "..."
     return p
